@@ -129,6 +129,42 @@ struct StackPointerOffsetAnalysis {
 }
 
 impl StackPointerOffsetAnalysis {
+    /// If `expr` is the stack pointer plus or minus constants (`sp`, `sp + c`,
+    /// `c + sp`, `sp - c`, nested in any way), the constant it adds to the
+    /// stack pointer.
+    ///
+    /// Every other expression (a mask, a shift, a product, another scalar, a
+    /// constant which does not depend on the stack pointer, a constant operand
+    /// which does not evaluate) does not move the stack pointer by a fixed
+    /// offset, and yields `None`.
+    fn added_constant(&self, expr: &il::Expression) -> Option<il::Constant> {
+        let constant = |e: &il::Expression| -> Option<il::Constant> {
+            if e.all_constants() {
+                eval(e).ok()
+            } else {
+                None
+            }
+        };
+        match *expr {
+            il::Expression::Scalar(ref scalar) if *scalar == self.stack_pointer => {
+                Some(il::const_(0, self.stack_pointer.bits()))
+            }
+            il::Expression::Add(ref lhs, ref rhs) => {
+                if let Some(c) = constant(rhs) {
+                    self.added_constant(lhs)?.add(&c).ok()
+                } else if let Some(c) = constant(lhs) {
+                    self.added_constant(rhs)?.add(&c).ok()
+                } else {
+                    None
+                }
+            }
+            il::Expression::Sub(ref lhs, ref rhs) => {
+                self.added_constant(lhs)?.sub(&constant(rhs)?).ok()
+            }
+            _ => None,
+        }
+    }
+
     // Handle an operation for stack pointer offset analysis
     fn handle_operation(
         &self,
@@ -142,12 +178,12 @@ impl StackPointerOffsetAnalysis {
                     match stack_pointer_offset {
                         IntermediateOffset::Top => IntermediateOffset::Top,
                         IntermediateOffset::Value(ref constant) => {
-                            let expr =
-                                src.replace_scalar(&self.stack_pointer, &constant.clone().into())?;
-                            if expr.all_constants() {
-                                IntermediateOffset::Value(eval(&expr)?)
-                            } else {
-                                IntermediateOffset::Top
+                            match self
+                                .added_constant(src)
+                                .and_then(|added| constant.add(&added).ok())
+                            {
+                                Some(offset) => IntermediateOffset::Value(offset),
+                                None => IntermediateOffset::Top,
                             }
                         }
                         IntermediateOffset::Bottom => IntermediateOffset::Bottom,
